@@ -13,7 +13,7 @@
 (*   assign   x = <pure>; x                                                *)
 (*   reads    x + 1                                                        *)
 (* State: the outcome of the last Parse, whether x is defined.  Calls:     *)
-(* Parse(c), RunAfterParsed (only after a successful Parse - but any       *)
+(* Parse(c), RunAfterParsed (after any Parse, also a failed one, any       *)
 (* number of times), Run(c), RunExpr(c), and the observers GetDetailText,  *)
 (* GetAsmText, RetToString, MatchedRest, which may be called at ANY time.  *)
 (* Every call returns (value or error).  The outcome of Parse, Run and     *)
@@ -47,10 +47,13 @@ Parse(c) == /\ parsed' = IF c = "syntax" THEN "failed" ELSE "ok"
             /\ Log("Parse", c, IF c = "syntax" THEN "error" ELSE "value")
             /\ pending' = (c = "syntax")
             /\ UNCHANGED xDefined
-RunAfterParsed == /\ parsed = "ok" /\ ~pending    \* (re-running after a failed evaluation just reports the pending error again)
-                  /\ Log("RunAfterParsed", last, Eval(last, xDefined))
-                  /\ pending' = (Eval(last, xDefined) = "error")
-                  /\ xDefined' = (xDefined \/ last = "assign")
+\* RunAfterParsed may be called whenever something has been given to Parse - also after a Parse that failed (the host ignored
+\* the error) and again after an evaluation that failed: while the context carries a pending error the call just reports it.
+RunAfterParsed == /\ parsed # "never"
+                  /\ LET out == IF pending THEN "error" ELSE Eval(last, xDefined) IN
+                     /\ Log("RunAfterParsed", IF parsed = "ok" THEN last ELSE "syntax", out)
+                     /\ pending' = (pending \/ out = "error")
+                     /\ xDefined' = (xDefined \/ (~pending /\ last = "assign"))
                   /\ UNCHANGED <<parsed, last>>
 Run(c) == /\ parsed' = IF c = "syntax" THEN "failed" ELSE "ok"
           /\ last' = c
